@@ -1,3 +1,187 @@
 import SigModel.Model.Wal
+/-
+Helper lemmas for C10 (write-ahead log framing).  Core Lean only.
+-/
 namespace SigModel.Lemmas.C10
+open SigModel.Wal
+
+/-! ### little-endian readers -/
+
+theorem le32_length (n : Nat) : (le32 n).length = 4 := rfl
+
+theorem rd32_le32 (n : Nat) (r : Bytes) (h : n < 4294967296) :
+    rd32 (le32 n ++ r) = some (n, r) := by
+  simp only [le32, List.cons_append, List.nil_append, rd32]
+  have : n % 256 + 256 * (n / 256 % 256) + 65536 * (n / 65536 % 256)
+      + 16777216 * (n / 16777216 % 256) = n := by omega
+  rw [this]
+
+theorem rd32_short (bs : Bytes) (h : bs.length < 4) : rd32 bs = none := by
+  match bs, h with
+  | [], _ => rfl
+  | [_], _ => rfl
+  | [_, _], _ => rfl
+  | [_, _, _], _ => rfl
+  | _ :: _ :: _ :: _ :: _, h => simp at h; omega
+
+theorem rd64_le64 (n : Nat) (r : Bytes) (h : n < 18446744073709551616) :
+    rd64 (le64 n ++ r) = some (n, r) := by
+  unfold rd64 le64
+  rw [List.append_assoc, rd32_le32 _ _ (by omega)]
+  simp only
+  rw [rd32_le32 _ _ (by omega)]
+  simp only
+  congr 2
+  omega
+
+theorem rdMany_flatMap {α : Type} (rd : Bytes → Option (Nat × Bytes)) (g : α → Nat)
+    (enc : Nat → Bytes) (ds : List α) (r : Bytes)
+    (h : ∀ d ∈ ds, ∀ r, rd (enc (g d) ++ r) = some (g d, r)) :
+    rdMany rd ds.length (ds.flatMap (fun d => enc (g d)) ++ r) = some (ds.map g, r) := by
+  induction ds with
+  | nil => simp [rdMany]
+  | cons d ds ih =>
+    simp only [List.flatMap_cons, List.length_cons, List.append_assoc, rdMany, List.map_cons]
+    rw [h d (by simp)]
+    simp only
+    rw [ih (fun d' hd' => h d' (by simp [hd']))]
+
+theorem zip3_map (dps : List Dp) :
+    ((dps.map Dp.ts).zip ((dps.map Dp.val).zip (dps.map Dp.tsid))).map
+      (fun (t, v, i) => ({ ts := t, val := v, tsid := i } : Dp)) = dps := by
+  induction dps with
+  | nil => rfl
+  | cons d ds ih => simp [ih]
+
+theorem decBlock_encBlock (dps : List Dp)
+    (h : ∀ d ∈ dps, d.ts < 4294967296 ∧ d.val < 18446744073709551616 ∧ d.tsid < 18446744073709551616)
+    (hn : dps.length < 4294967296) :
+    decBlock (encBlock dps) = some dps := by
+  unfold decBlock encBlock
+  rw [List.append_assoc, List.append_assoc, rd32_le32 _ _ hn]
+  simp only
+  rw [rdMany_flatMap rd32 Dp.ts le32 dps _ (fun d hd r => rd32_le32 _ _ (h d hd).1)]
+  simp only
+  rw [rdMany_flatMap rd64 Dp.val le64 dps _ (fun d hd r => rd64_le64 _ _ (h d hd).2.1)]
+  simp only
+  have := rdMany_flatMap rd64 Dp.tsid le64 dps [] (fun d hd r => rd64_le64 _ _ (h d hd).2.2)
+  rw [List.append_nil] at this
+  rw [this]
+  simp only
+  rw [zip3_map]
+
+/-! ### frames -/
+
+theorem frame_length (crc : Bytes → Nat) (p : Bytes) : (frame crc p).length = 8 + p.length := by
+  simp [frame, le32]; omega
+
+theorem frame_ne_nil (crc : Bytes → Nat) (p : Bytes) (rest : Bytes) : frame crc p ++ rest ≠ [] := by
+  simp [frame, le32]
+
+/-- one unfolding of the reader on a nonempty input -/
+theorem readBlocks_step (crc : Bytes → Nat) (ok : Bytes → Bool) (fuel : Nat) (bs : Bytes)
+    (hne : bs ≠ []) :
+    readBlocks crc ok (fuel + 1) bs =
+      match rd32 bs with
+      | none => ([], .err)
+      | some (size, r1) =>
+        if size < 4 then ([], .err)
+        else match rd32 r1 with
+          | none => ([], .err)
+          | some (sum, r2) =>
+            if r2.length < size - 4 then ([], .err)
+            else
+              let p := r2.take (size - 4)
+              if crc p ≠ sum then ([], .err)
+              else if !ok p then ([], .err)
+              else
+                let (rest, st) := readBlocks crc ok fuel (r2.drop (size - 4))
+                (p :: rest, st) := by
+  cases bs with
+  | nil => exact absurd rfl hne
+  | cons b bs =>
+    rw [readBlocks]
+    · rfl
+    · simp
+
+theorem readBlocks_nil (crc : Bytes → Nat) (ok : Bytes → Bool) (fuel : Nat) :
+    readBlocks crc ok (fuel + 1) [] = ([], .clean) := by
+  rw [readBlocks]
+
+/-- the reader accepts one well-formed frame and continues with one less fuel -/
+theorem readBlocks_frame (crc : Bytes → Nat) (ok : Bytes → Bool) (fuel : Nat) (p rest : Bytes)
+    (hlen : p.length + 4 < 4294967296) (hcrc : crc p < 4294967296) (hok : ok p = true) :
+    readBlocks crc ok (fuel + 1) (frame crc p ++ rest) =
+      (p :: (readBlocks crc ok fuel rest).1, (readBlocks crc ok fuel rest).2) := by
+  rw [readBlocks_step _ _ _ _ (frame_ne_nil crc p rest)]
+  have e : frame crc p ++ rest = le32 (p.length + 4) ++ (le32 (crc p) ++ (p ++ rest)) := by
+    simp [frame, List.append_assoc]
+  rw [e, rd32_le32 _ _ hlen]
+  simp only
+  rw [rd32_le32 _ _ hcrc]
+  simp only [hok, List.length_append, List.take_left', List.drop_left', ne_eq, not_true_eq_false,
+    Bool.not_true, Bool.false_eq_true, if_false, Nat.add_sub_cancel]
+  rw [if_neg (by omega), if_neg (by omega)]
+
+
+/-! ### intact prefix followed by an arbitrary tail -/
+
+theorem readBlocks_frames_append (crc : Bytes → Nat) (ok : Bytes → Bool) (qs : List Bytes)
+    (tail : Bytes) (fuel : Nat)
+    (hwf : ∀ p ∈ qs, p.length + 4 < 4294967296 ∧ crc p < 4294967296 ∧ (∀ b ∈ p, b < 256))
+    (hok : ∀ p ∈ qs, ok p = true) (hf : qs.length < fuel) :
+    readBlocks crc ok fuel (qs.flatMap (frame crc) ++ tail) =
+      (qs ++ (readBlocks crc ok (fuel - qs.length) tail).1,
+        (readBlocks crc ok (fuel - qs.length) tail).2) := by
+  induction qs generalizing fuel with
+  | nil => simp
+  | cons q qs ih =>
+    obtain ⟨f, rfl⟩ : ∃ f, fuel = f + 1 := ⟨fuel - 1, by omega⟩
+    have hq := hwf q (by simp)
+    simp only [List.flatMap_cons, List.append_assoc]
+    rw [readBlocks_frame crc ok f q _ hq.1 hq.2.1 (hok q (by simp))]
+    rw [ih f (fun p hp => hwf p (by simp [hp])) (fun p hp => hok p (by simp [hp]))
+      (by simp at hf; omega)]
+    simp
+
+theorem flatMap_frame_length_ge (crc : Bytes → Nat) (ps : List Bytes) :
+    ps.length ≤ (ps.flatMap (frame crc)).length := by
+  induction ps with
+  | nil => simp
+  | cons p ps ih =>
+    simp only [List.flatMap_cons, List.length_append, List.length_cons, frame_length]
+    omega
+
+/-! ### truncation -/
+
+/-- a strict prefix of a frame never yields a block -/
+theorem readBlocks_frame_take (crc : Bytes → Nat) (ok : Bytes → Bool) (fuel : Nat) (p : Bytes)
+    (k : Nat) (hlen : p.length + 4 < 4294967296) (hcrc : crc p < 4294967296)
+    (hk : k < 8 + p.length) :
+    ∃ st, readBlocks crc ok (fuel + 1) ((frame crc p).take k) = ([], st) := by
+  have e : frame crc p = le32 (p.length + 4) ++ (le32 (crc p) ++ p) := by
+    simp [frame, List.append_assoc]
+  by_cases h0 : k = 0
+  · subst h0
+    exact ⟨.clean, by simp [readBlocks_nil]⟩
+  have hne : (frame crc p).take k ≠ [] := by
+    intro h
+    have := congrArg List.length h
+    simp [frame_length] at this
+    omega
+  refine ⟨.err, ?_⟩
+  rw [readBlocks_step _ _ _ _ hne]
+  by_cases h4 : k < 4
+  · rw [rd32_short _ (by simp; omega)]
+  · rw [e, List.take_append, List.take_of_length_le (by simp [le32_length]; omega), le32_length,
+      rd32_le32 _ _ hlen]
+    simp only
+    rw [if_neg (by omega)]
+    by_cases h8 : k < 8
+    · rw [rd32_short _ (by simp; omega)]
+    · rw [List.take_append, List.take_of_length_le (by simp [le32_length]; omega), le32_length,
+        rd32_le32 _ _ hcrc]
+      simp only
+      rw [if_pos (by simp; omega)]
+
 end SigModel.Lemmas.C10
